@@ -50,6 +50,18 @@ pub fn run_with(bin: &Path, args: &[String], timeout_ms: u64, wrapper: Option<&[
     };
     cmd.args(args).stdin(Stdio::null()).stdout(Stdio::piped()).stderr(Stdio::piped());
     cmd.env("RUST_BACKTRACE", "0");
+    // the program's results and documents must not depend on the environment it is started in: a third of the runs get a
+    // Spanish / Catalan numeric locale, another third an unusable TMPDIR and another time zone (chosen from the arguments,
+    // so that a replay makes the same choice)
+    match crate::spec::fnv(args.join(" ").as_bytes()) % 3 {
+        0 => {
+            cmd.env("LC_ALL", "es_ES.UTF-8").env("LC_NUMERIC", "es_ES.UTF-8").env("LANG", "es_ES.UTF-8");
+        }
+        1 => {
+            cmd.env("TMPDIR", "/nonexistent/tmp").env("TZ", "Pacific/Kiritimati").env("LC_NUMERIC", "ca_ES@valencia").env_remove("HOME");
+        }
+        _ => {}
+    }
     let mut child = match cmd.spawn() {
         Ok(c) => c,
         Err(e) => return RunResult { spawn_error: Some(e.to_string()), ..Default::default() },
